@@ -150,6 +150,26 @@ fn case<R: KhRing>(ctx: &mut Ctx, rng: &mut Rng) where for<'x> &'x R: EucRingOps
             }
         }
     }
+    // truncations of the finished objects (one case in five): KhHomology::truncated is the restriction of the
+    // homology; KhComplex::truncated keeps the homology in the degrees strictly inside the range
+    if cfg.h_range.is_none() && n >= 2 && rng.chance(1, 5) {
+        let lo = tot.keys().min().cloned().unwrap_or(0) as isize - 1;
+        let hi = tot.keys().max().cloned().unwrap_or(0) as isize + 1;
+        let r0 = rng.range(lo as i64, hi as i64) as isize;
+        let r1 = rng.range(r0 as i64, hi as i64) as isize;
+        let (cfg3, l3) = (cfg.clone(), l.clone());
+        match guarded(move || kh_truncations::<R>(&l3, h, t, reduced, &cfg3, r0, r1)) {
+            Ok((ht, ct, hr, inside)) => {
+                let restr: Total = tot.iter().filter(|(k, _)| (r0 as i64) <= **k && **k <= (r1 as i64)).map(|(k, v)| (*k, v.clone())).collect();
+                let interior = |x: &Total| -> Total { x.iter().filter(|(k, _)| (r0 as i64) < **k && **k < (r1 as i64)).map(|(k, v)| (*k, v.clone())).collect() };
+                if ht != restr { ctx.violation(&format!("C01/{rname}/homology-truncated"), &format!("KhHomology::truncated({r0}..={r1}) = {:?}, the homology restricted to that range is {:?}", ht, restr), wit(json!(null))); return }
+                if interior(&ct) != interior(&restr) { ctx.violation(&format!("C01/{rname}/complex-truncated"), &format!("homology of KhComplex::truncated({r0}..={r1}) = {:?} differs from the full homology {:?} strictly inside the range", ct, restr), wit(json!(null))); return }
+                if !inside || tot.keys().any(|k| (*k as isize) < hr.0 || (*k as isize) > hr.1) { ctx.violation(&format!("C01/{rname}/ranges"), &format!("h_range {:?} / q_range do not contain every generator and every non-zero homology group", hr), wit(json!(null))); return }
+                ctx.count("truncation_checks", 1);
+            }
+            Err(p) => { if !(matches!(R::rname(), "i64" | "Ratio<i64>") && p.is_overflow()) { ctx.violation(&format!("C01/{rname}/panic"), &format!("truncated() panicked: {}", p.brief()), wit(json!(null))); return } }
+        }
+    }
     let class = format!("{rname}/{}", if reduced { "reduced" } else { "unreduced" });
     let nt = n >= 3 || pd.components().len() >= 2 || (h, t) != (0, 0);
     ctx.ok(&class, nt, hash_of(&(&pd.x, &pd.neg, h, t, reduced, &cfg.order, cfg.auto_deloop, cfg.auto_elim, nthreads)));
